@@ -208,6 +208,50 @@ def install_nospaces_probe():
     P._no_spaces_parser.parse = classmethod(parse)
 
 
+def install_parserloop_probe():
+    """log, for every run of _DateLocaleParser._parse, the configured PARSERS and which of the per-parser methods ran, in
+    order, with the validity of what each returned (refinement of Pipeline.tla's parser loop)"""
+    if _PROBE.get("ploop_installed"):
+        return
+    _PROBE["ploop_installed"] = True
+    try:
+        import dateparser.date as D
+        C = D._DateLocaleParser
+        names = {"_try_timestamp": "timestamp", "_try_negative_timestamp": "negative-timestamp", "_try_freshness_parser": "relative-time",
+                 "_try_given_formats": "custom-formats", "_try_absolute_parser": "absolute-time", "_try_nospaces_parser": "no-spaces-time"}
+        origs = {m: getattr(C, m) for m in names}
+        o_parse = C._parse
+    except Exception:
+        _PROBE["unbound"].append("_DateLocaleParser parser loop")
+        return
+
+    def mk(m):
+        o = origs[m]
+
+        def w(self, *a, **k):
+            r = o(self, *a, **k)
+            cur = getattr(_state, "ploop", None)
+            if cur is not None:
+                try:
+                    cur.append([names[m], bool(self._is_valid_date_data(r))])
+                except Exception:
+                    cur.append([names[m], False])
+            return r
+        return w
+    for m in names:
+        setattr(C, m, mk(m))
+
+    def _parse(self):
+        _state.ploop = []
+        try:
+            r = o_parse(self)
+        finally:
+            tries, _state.ploop = _state.ploop, None
+        _events().append({"ev": "parser_loop", "parsers": list(self._settings.PARSERS), "tries": tries, "found": r is not None})
+        return r
+    C._parse = _parse
+
+
 def project_settings(settings, tz=None):
     base = getattr(settings, "RELATIVE_BASE", None)
     sg = {
@@ -245,6 +289,7 @@ def call_parse(case):
     if case.get("probe"):
         install_absparser_probe()
         install_nospaces_probe()
+        install_parserloop_probe()
     for pre in case.get("pre") or []:
         # earlier calls of the same process (their outcome is not judged here): what the judged call returns must not
         # depend on them
@@ -750,13 +795,63 @@ def call_c18(case):
 
 
 # --------------------------------------------------------------------------- C17: search_dates
+def install_detect_probe():
+    if _PROBE.get("detect_installed"):
+        return
+    _PROBE["detect_installed"] = True
+    try:
+        from dateparser.search.text_detection import FullTextLanguageDetector as F
+        orig = F._best_language
+    except Exception:
+        _PROBE["unbound"].append("FullTextLanguageDetector._best_language")
+        return
+
+    def _best_language(self, date_string, settings=None):
+        before = list(self.languages)
+        r = orig(self, date_string, settings=settings)
+        if 2 <= len(before) <= 6:
+            _events().append({"ev": "detect", "langs": before, "text": date_string, "settings": settings, "out": r})
+        return r
+    F._best_language = _best_language
+
+
+def project_detect(e):
+    """the candidates of one _best_language call in the abstract form of spec/Detect.tla"""
+    from dateparser.conf import settings as default_settings
+    from dateparser.utils import normalize_unicode
+    st = e["settings"] or default_settings
+    text = e["text"]
+    low = text.lower()
+    tset = set(low)
+    symbol_set = set("0123456789 /-)(.:\\,'")
+    st0 = st.replace(NORMALIZE=False)
+    chars = [L.get_wordchars_for_detection(settings=st0) for L in e["langs"]]
+    cands = []
+    ds = normalize_unicode(low)
+    for i, L in enumerate(e["langs"]):
+        uniq = set(chars[i])
+        for o in chars:
+            if o != chars[i]:
+                uniq = uniq - o
+        n = L.count_applicability(ds, strip_timezone=False, settings=st)
+        if not (n[0] > 0 or n[1] > 0):
+            n = L.count_applicability(ds, strip_timezone=True, settings=st)
+        cands.append({"name": L.shortname, "uniq": any(ch.lower() in low for ch in uniq), "chars": len(tset & chars[i]) > 0, "cnt": [int(n[0]), int(n[1])]})
+    names = [c["name"] for c in cands]
+    return {"cands": cands, "symbolsOnly": (tset & symbol_set) == tset, "out": (names.index(e["out"]) + 1) if e["out"] in names else (0 if e["out"] is None else -1)}
+
+
 def call_search(case):
     """case: {text, languages | null, settings, withlang} -> projected result"""
     import datetime as _d
     import re as _r
     from dateparser.search import search_dates
     st = decode_settings(case.get("settings"))
-    res = {"exc": "", "isnone": False, "islist": False, "hits": []}
+    res = {"exc": "", "isnone": False, "islist": False, "hits": [], "detect": []}
+    probe_detect = bool(case.get("languages")) and len(case["languages"]) >= 2
+    if probe_detect:
+        install_detect_probe()
+        _state.events = []
     for t_ in case.get("pre") or []:      # earlier searches of the same process (not judged here)
         try:
             search_dates(t_, languages=case.get("languages"), settings=decode_settings(case.get("settings")))
@@ -768,6 +863,13 @@ def call_search(case):
         res["exc"] = type(e).__name__
         res["msg"] = str(e)[:200]
         return res
+    if probe_detect:
+        for e_ in [x for x in _state.events if x.get("ev") == "detect"][-1:]:
+            try:
+                res["detect"].append(project_detect(e_))
+            except Exception as x:  # noqa: projection trouble is reported, not judged
+                res["detect_error"] = "%s: %s" % (type(x).__name__, x)
+        _state.events = []
     if r is None:
         res["isnone"] = True
         return res
